@@ -190,6 +190,8 @@ class Sched(object):
         """join(): blocked until t is done.  join(timeout): additionally enabled as a timer that fires `timeout` later
         (the joiner then goes on although t is still alive) - whether t finishes first is the schedule's choice."""
         cur = self._me()
+        if t.state == NEW:
+            raise RuntimeError("cannot join thread before it is started")  # what threading.Thread.join does
         if t.state != DONE:
             if timeout is None:
                 cur.state = JOINING
